@@ -211,3 +211,11 @@ def T_OTHER(oid):
 
 def pv_equal(a, b):
     return a == b
+
+
+def dashed(s):
+    return s.replace('_', '-')
+
+
+def undashed(s):
+    return s.replace('-', '_')
